@@ -177,6 +177,13 @@ func solveAll(rs []*Result, sec int, two bool, workers int) {
 				os.WriteFile(file, []byte(r.Script), 0644)
 				var total int64
 				r.Status = "unknown"
+				if r.Class == "cover" {
+					// vacuity guard: only "unsat" (contradictory assumptions) matters; short budget
+					st, _, ms := runSolver(solvers[0], file, 3)
+					r.Status, r.Solver, r.Ms = st, solvers[0].name, ms
+					os.Remove(file)
+					continue
+				}
 				for _, sp := range solvers {
 					st, out, ms := runSolver(sp, file, sec)
 					total += ms
